@@ -359,7 +359,11 @@ class DataFormat(object):
             self.item_delimiter = item_delimiter
         elif name == KEY_LINE_DELIMITER:
             try:
-                self.line_delimiter = _TEXT_TO_LINE_DELIMITER_MAP[value.lower()]
+                line_delimiter = _TEXT_TO_LINE_DELIMITER_MAP[value.lower()]
+                if LINE_DELIMITER_TO_TEXT_MAP[line_delimiter] not in self._VALID_LINE_DELIMITER_TEXTS:
+                    # For example "none", which is only available for fixed data.
+                    raise KeyError(value)
+                self.line_delimiter = line_delimiter
             except KeyError:
                 raise errors.InterfaceError(
                     "line delimiter %s must be changed to one of: %s"
